@@ -24,7 +24,8 @@ func (rc) Close() error { return nil }
 // session returned an error the remaining sizes of that session are skipped.
 func implCR(f []string, o *oracleSink) string {
 	mkSrc := func(d, chunk, fa, ewd string) *scriptSrc {
-		return &scriptSrc{data: loadBlob(d), chunk: atoi(chunk), failAt: atoi(fa), eofWithData: ewd == "1"}
+		k, wr := srcFail(fa)
+		return &scriptSrc{data: loadBlob(d), chunk: atoi(chunk), failAt: k, wrapEOF: wr, eofWithData: ewd == "1"}
 	}
 	src := mkSrc(f[2], f[3], f[4], f[5])
 	zr := lz4.NewCompressingReader(rc{src})
@@ -175,7 +176,7 @@ func genCR(w *bufio.Writer, thorough bool, r *Rng) {
 		case 1:
 			opts = "conc=2" // not applicable
 		case 2:
-			opts = "bs=1000"
+			opts = []string{"bs=1000", "bs=8388608", "bs=8388608,bc=1", "bs=0"}[r.Intn(4)] // 8 MiB exists in legacy frames only
 		}
 		sz := r.Pick([]int{0, 1, 100, bs - 1, bs, bs + 1, 2 * bs, 2*bs + 100, r.Intn(3 * bs)})
 		if opts == "-" && sz > 100000 {
@@ -184,6 +185,10 @@ func genCR(w *bufio.Writer, thorough bool, r *Rng) {
 		fail := -1
 		if r.Intn(6) == 0 {
 			fail = r.Intn(8)
+		}
+		failTok := fmt.Sprint(fail)
+		if fail >= 0 && r.Bool() {
+			failTok += "~" // the source's error wraps io.ErrUnexpectedEOF: still an error, not the end
 		}
 		var sizes []string
 		k := 1 + r.Intn(6)
@@ -197,7 +202,7 @@ func genCR(w *bufio.Writer, thorough bool, r *Rng) {
 		if sz > 70000 {
 			sizes = append(sizes, fmt.Sprint(r.Pick([]int{4096, 65536, 100000})))
 		}
-		fmt.Fprintf(w, "CR %s %s %d %d %d %s\n", opts, dataTok(r, sz, lvl), r.Pick([]int{0, 0, 1, 5000}), fail, r.Intn(2), strings.Join(sizes, " "))
+		fmt.Fprintf(w, "CR %s %s %d %s %d %s\n", opts, dataTok(r, sz, lvl), r.Pick([]int{0, 0, 1, 5000}), failTok, r.Intn(2), strings.Join(sizes, " "))
 	}
 	// reuse: Reset (and Apply) in the middle of a stream, after io.EOF, and after a source failure
 	bss := []int{65536, 262144, 1048576, 4194304}
